@@ -862,6 +862,34 @@ def stage_quadrature_large(ctx):
                           "(max relative deviation %.2e)" % dev, dict(data, angles_idx=idx))
 
 
+MIESCATLIB = "holopy/scattering/theory/mie_f/miescatlib.py"
+_ARR = [("al", "C"), ("bl", "C")]
+
+
+def _src_items():
+    from harness.lib import pyarr
+    return [
+        dict(file=MIESCATLIB, qualname="(header)", name="asum", fn=lambda repo: pyarr.HEADER),
+        dict(file=MIESCATLIB, qualname="cross_sections", name="cross_sections_src",
+             fn=lambda repo: pyarr.translate(repo, MIESCATLIB, "cross_sections", "cross_sections_src", _ARR)),
+        dict(file=MIESCATLIB, qualname="asymmetry_parameter", name="asym_src",
+             fn=lambda repo: pyarr.translate(repo, MIESCATLIB, "asymmetry_parameter", "asym_src", _ARR)),
+        dict(file="holopy/scattering/theory/mie.py", qualname="Mie.raw_cross_sections", name="raw_cross_sections_src",
+             fn=lambda repo: pyarr.translate_mixed(
+                 repo, "holopy/scattering/theory/mie.py", "Mie.raw_cross_sections", "raw_cross_sections_src",
+                 [("medium_wavevec", "R")], _ARR, {"self._scat_coeffs"},
+                 {"miescatlib.cross_sections": ("cross_sections_src", 3)},
+                 {"miescatlib.asymmetry_parameter": "asym_src"})),
+    ]
+
+
+def stage_srctie(ctx):
+    from harness.lib import srctie
+    ok = srctie.run(ctx, "C03", "From Coq Require Import Psatz.\nFrom HV Require Import C03.Model C03.Lemmas C03.Props.\n",
+                    _src_items())
+    ctx.count("srctie:%s" % ("ok" if ok else "broken"))
+
+
 def run(ctx):
     ctx.rule = ("spheres: size parameter 1e-3..100 (exploration to 500 in the thorough tier), relative index real "
                 "(incl. < 1), weakly and strongly absorbing, 1-3 layers, media 1.0-1.7, wavelengths 0.3-1.2, random "
@@ -903,7 +931,15 @@ def run(ctx):
         t = time.time()
         guarded(ctx, tag, fn, *a)
         times.append("%s=%.0fs" % (tag, time.time() - t))
+    ctx.clauses_proved.append(
+        "source tie: miescatlib.cross_sections, miescatlib.asymmetry_parameter (numpy vector code read elementwise) and "
+        "Mie.raw_cross_sections, translated from the current source text on every run, are proved equal to the model's sums "
+        "for every coefficient list; cabs = cext - cscat, cscat >= 0, cabs = 0 for real-form coefficients and the optical "
+        "theorem restated for the translated source")
+    ctx.trusted.append("translator harness/lib/pyarr.py (numpy elementwise arithmetic over equally long 1-D arrays and .sum() read "
+                       "as list folds over R; float rounding ignored; input guards `if isinstance(..): raise` dropped)")
     timed("prove", ctx.prove)
+    timed("source-tie", stage_srctie, ctx)
     boot.boot()
     timed("lib", stage_lib, ctx)
     timed("coef", stage_coef, ctx)
@@ -929,6 +965,10 @@ def replay(ctx, data):
     boot.boot()
     d = data["data"]
     kind = d.get("kind")
+    if kind == "tie":
+        ctx.prove()
+        stage_srctie(ctx)
+        return
     if kind in ("xmie", "ms", "rayleigh"):
         from holopy.scattering import Sphere, Multisphere, calc_cross_sections
         if kind == "rayleigh":
